@@ -390,8 +390,11 @@ func (r *RectClip64) executeInternalPath64(path Path64) {
 	var ok bool
 	if loc, ok = getLocation(r.rect, path[0]); !ok {
 		prev, ok2 := getLocation(r.rect, path[i])
-		for i <= highI && !ok2 {
+		for !ok2 {
 			i++
+			if i > highI {
+				break
+			}
 			prev, ok2 = getLocation(r.rect, path[i])
 		}
 		if i > highI {
@@ -976,7 +979,7 @@ func startLocsAreClockwise(startLocs []Location) bool {
 
 func getPathRectClipLine(op *OutPt2) Path64 {
 	var result Path64
-	if op == nil || op.prev == op.next {
+	if op == nil || op == op.next {
 		return result
 	}
 	op = op.next
